@@ -207,12 +207,14 @@ CHECKS = {
         ref="5/C17"),
     "C18": dict(
         cat="proof",
-        text="Aliasing patterns permitted by each signature are enumerated from the IR (non-noalias parameters of the output's type); every "
-             "(function, pattern) of Fq2/Fq6/Fq12 and of the G1/G2 point operations is symbolically executed with the output object being the "
-             "input object and z3 decides equality with the specification for all operand values; __restrict misuse between layers is an "
-             "interpreter assertion. Violations are replayed natively.",
-        note="Word layer (BigInt/Fp res==a) is covered by C03; C wrappers by C19. Whole-object aliasing only.",
-        tech="LLVM-IR symbolic execution under each aliasing configuration, polynomial-identity VCs mod q in z3",
+        text="Aliasing patterns permitted by each signature are enumerated from the IR (non-noalias parameters of the output's type). Tower and curve layers: every "
+             "(function, pattern) of Fq2/Fq6/Fq12 and of the G1/G2 point operations is symbolically executed with the output object being the input object and z3 "
+             "decides equality with the specification for all operand values; passing the written object to a __restrict parameter anywhere below is an interpreter "
+             "assertion. Word layer: BigInt<N>::shift_left/shift_right are executed twice (distinct and aliased output) over bit-vectors and z3 decides equal results "
+             "for all operands and shift amounts (word offset enumerated); add/subtract/double/negate with res == a are obligations of C02/C03. Prime-field layer: "
+             "exponentiate (alias-safe wrapper) and Fq::square_root with out == a over uninterpreted field operations give the same term as with a distinct output and "
+             "never hand the written object to a __restrict parameter; fp_inverse<Fq|Fr>(res == a) is hazard-free (no write through res reaches a read through a: "
+             "datalog reachability over the CFG in z3's fixed-point engine). Violations are replayed natively.",
         ref="5/C18"),
 }
 
